@@ -18,6 +18,7 @@ type ValProfile struct {
 	KeySpace      int    // size of the integer key space for maps
 	BigKeys       bool   // allow keys around / above the key inline limit
 	BlindDispose  bool   // dispose of unloaded large values without reading them (World.blindDisposal)
+	LongTypes     bool   // every fifth type info is a byte string of 200-440 bytes
 	ManyTypes     bool   // type infos drawn from hundreds of ids instead of 7
 	CompositeFlip bool   // SetType may turn a simple-typed map into a composite-typed one and back (compact form <-> plain form)
 }
